@@ -57,6 +57,7 @@ PROPS = {
     technique=E1_TECH,
     e1=[dict(tu="c04_select.cpp"), dict(tu="c03b_dynamic.cpp"), dict(tu="c04b_concat.cpp"), dict(tu="c15b_pad_matmul.cpp"), dict(tu="c02c_padview.cpp"), dict(tu="c04d_tri.cpp"), dict(tu="c04e_window.cpp"), dict(tu="c04c_take.cpp"), dict(tu="c04f_diagonal.cpp"), dict(tu="c04g_expand.cpp"), dict(tu="c04h_cumsum.cpp")],
     e2=[dict(rule="R-PAIR"), dict(rule="R-AXISNORM"), dict(rule="R-PARAMUSE"), dict(rule="R-CONSTBRANCH", anchors=True)],
+    e3=[dict(group="C04")],
     rule=E1_RULE,
     explanation="src = dst mod shape (tile), src_axis = dst_axis / r (repeat), src_axis = (dst_axis - shift) mod extent (roll), written from the NumPy definitions.",
     not_decided="compress, take over the flattened array (axis None), stack family, split, where, generators, resize (float round trip), expand with several axes, tri, per-element repeats, repeat/roll without axis; view-level element laws of tril/triu/sliding_window (index level only)",
@@ -146,6 +147,7 @@ PROPS["C10"] = dict(
     note=E2_NOTE,
     technique=E2_TECH,
     e2=[dict(rule="R-FWD.array"), dict(rule="R-EVAL")],
+    e3=[dict(group="C10")],
     rule="E2: one instance per function template with a `context` parameter under include/nmtools/array/array (distinct by qualified name and parameter list); one instance per instantiated member of the default evaluator (R-EVAL)",
     explanation="Wrapper forwarding is visible in the shape of the code: wrong view, permuted/dropped/duplicated argument or evaluation of a different object is reported with the wrapper's name.",
     not_decided="composition unobservability (value level), result type adequacy (C11), non-default contexts",
